@@ -369,7 +369,21 @@ func GenOdd(r *core.PRNG) string {
 	ctl := core.Pick(r, []string{"break", "continue", "break", "if true { break }", "for { break }; break", "switch { case true: continue }", "return"})
 	loop := core.Pick(r, []string{"for", "for i := 0; i < 2; i++", "for _, v := range []int{1, 2}", "for k := range map[string]int{\"a\": 1}"})
 	n := core.Pick(r, wildInts)
-	switch r.Intn(18) {
+	switch r.Intn(20) {
+	case 18:
+		// compound assignment on an index target whose index contains a function literal doing the same
+		d := 1 + r.Intn(6)
+		if r.Chance(1, 300) {
+			d = 20 // compiles for about a minute
+		}
+		return "a := []int{0, 0}; " + NestedOpAssign(d)
+	case 19:
+		// struct type whose field names share one nested type; dumped with WithTreeDump
+		d := 1 + r.Intn(8)
+		if r.Chance(1, 300) {
+			d = 25 // its tree dump is half a gigabyte and takes most of a minute
+		}
+		return SharedStructType(d)
 	case 16:
 		return core.Pick(r, []string{"import ( x \"\\400\" )", "import ( x \"\\ud800\" )", "import \"\\400\"", "import ( \"fmt\" x )", "import ( x )", "import x", "import ( x \"fmt\" \"strings\" y )", "import ( . \"fmt\" )", "import ( _ \"fmt\" )", "import ()", "import \"\"", "import ( x \"\" ); x.y", "import ( fmt \"strings\" ); fmt.Repeat(\"a\", 2)", "import \"fmt\"; import \"fmt\"; fmt.Println(1)", "import ( a \"x/../y\" )", "import `raw`", "import ( x `ra\\400w` )", "import 'c'", "import 5"})
 	case 17:
@@ -419,4 +433,22 @@ func GenOdd(r *core.PRNG) string {
 		"strings.Repeat(\"ab\", -1)", "strings.Repeat(\"ab\", " + n + ")", "strings.Split(1, 2)", "strings.Join(1, 2)", "strings.Join([]int{1}, \",\")", "fmt.Sprintf(\"%d %s %v %!\", 1)", "fmt.Sprintf(5)", "fmt.Sprintf()", "strconv.Itoa(\"x\")", "strconv.ParseInt(\"1\", 99, 64)", "strconv.ParseFloat(\"x\")", "strconv.FormatFloat(1.5, 'q', 1, 64)", "strconv.FormatInt(5, 1)", "math.Sqrt(\"x\")", "math.Sqrt()", "strings.Replace(\"a\", \"\", \"b\", " + n + ")",
 		"import \"golang.org/x/exp/slices\"; slices.SortFunc(1, 2)", "import \"golang.org/x/exp/slices\"; slices.SortFunc([]int{2, 1}, func(a, b int) int { return 1 })", "import \"golang.org/x/exp/slices\"; slices.Delete([]int{1}, 3, 1)", "import \"golang.org/x/exp/slices\"; slices.Sort([]any{1, \"a\", nil})", "import \"golang.org/x/exp/maps\"; maps.Keys(1)", "import \"golang.org/x/exp/maps\"; maps.Clone(nil)", "import \"errors\"; e := errors.New(1); e.Error()", "import \"errors\"; e := errors.New(\"x\"); e.Missing()", "import \"time\"; time.Sleep(\"x\")", "import \"time\"; t := time.Now(); t.Missing()", "import \"os\"; os.ReadFile(1)", "import \"os\"; os.WriteFile(\"x\", 1, 2)", "import \"math/rand\"; rand.Intn(0)", "import \"math/rand\"; rand.Intn(-5)", "__type()", "__yield()", "import \"builtin\"; builtin.__yield(1)",
 	}))
+}
+
+// NestedOpAssign: a[func() int { a[func() int { ... }()] += 1; return 0 }()] += 1, d levels.
+func NestedOpAssign(d int) string {
+	inner := "0"
+	for i := 0; i < d; i++ {
+		inner = "func() int { a[" + inner + "] += 1; return 0 }()"
+	}
+	return "a[" + inner + "] += 1"
+}
+
+// SharedStructType: type T struct { a, b struct { a, b struct { ... int } } }, d levels.
+func SharedStructType(d int) string {
+	inner := "int"
+	for i := 0; i < d; i++ {
+		inner = "struct { a, b " + inner + " }"
+	}
+	return "type T " + inner
 }
